@@ -324,6 +324,7 @@ class UpgradedParameter(_util.funcsigs.Parameter):
 def _upgrade_parameters_with_warning(parameters, stacklevel=1):
     if parameters is None:
         return None
+    parameters = list(parameters) # may be an iterator: it is gone through twice
     if all(isinstance(param, UpgradedParameter) for param in parameters):
         return parameters
     else:
